@@ -7,7 +7,7 @@ exact-capacity sweeps, the same requests as recipe steps, and create_solution / 
 fit by construction or are pushed across a limit (the generators of C05 and C12)."""
 from __future__ import annotations
 
-from .common import shard, run_cases, BASE_ASSUMPTIONS, repo_suite, repo_suite_job, under_density_configs
+from .common import under_display_configs, shard, run_cases, BASE_ASSUMPTIONS, repo_suite, repo_suite_job, under_density_configs
 
 ID = 'C03'
 LEVEL = 'exploration'
@@ -48,6 +48,9 @@ def plan(tier, seed):
     # the same histories under the documented non-default densities (a fraction of the budget)
     n_cfg = 24 if tier == 'quick' else 400
     jobs = jobs + under_density_configs(shard('history', n_cfg, 2 if tier == 'quick' else 8))
+    # a fraction of the budget under other documented configurations (display units / precisions, storage units with
+    # unequal prefixes)
+    jobs = jobs + under_display_configs(shard('history', 16, 2) + shard('boundary', 16, 2) + shard('solutions', 20, 1) + shard('solutions_from', 16, 1) if tier == 'quick' else shard('history', 300, 8) + shard('boundary', 300, 8) + shard('solutions', 400, 4) + shard('solutions_from', 300, 4))
     if tier != 'quick' or False:
         jobs = jobs + repo_suite_job()
     return jobs
